@@ -495,6 +495,10 @@ func factsC10(r *Repo) []Fact {
 	// multi-query retrievers, ConcurrentRetrieveWithCallback): every error / panic path reports
 	// the unit's end (c10_builtin.go)
 	out = append(out, c10BuiltinFacts(r)...)
+
+	// contexts derived by user code with callbacks.InitCallbacks / ReuseHandlers: InitCallbacks
+	// always installs a manager, a nil manager is silent (c10_detach.go)
+	out = append(out, c10DetachFacts(r)...)
 	return out
 }
 
